@@ -26,6 +26,7 @@ type c14Step struct {
 }
 
 type c14Case struct {
+	Env   int       `json:"env,omitempty"` // environment of all cached runs: 0 XDG_CACHE_HOME, 1 HOME only, 2 no usable cache directory, 3 relative cache path, other locale and time zone
 	Steps []c14Step `json:"steps"`
 }
 
@@ -65,7 +66,7 @@ func uncached(s c14Step) cliResult {
 
 func c14Check(c c14Case) *Violation {
 	initPool()
-	env := newCliEnv()
+	env := newCliEnv().withEnv(c.Env)
 	defer env.remove()
 	for i, s := range c.Steps {
 		if s.Aux {
@@ -132,7 +133,7 @@ func c14Check(c c14Case) *Violation {
 }
 
 func c14Classify(c c14Case) (bool, []string) {
-	labels := []string{fmt.Sprintf("steps=%d", len(c.Steps))}
+	labels := []string{fmt.Sprintf("steps=%d", len(c.Steps)), fmt.Sprintf("env=%d", c.Env)}
 	nt := false
 	for i, s := range c.Steps {
 		if s.Aux {
@@ -234,6 +235,7 @@ func c14Gen(t *rapid.T) c14Case {
 	vars := c14Variants[cmd]
 	in := rapid.SampledFrom(c14Inputs).Draw(t, "in")
 	var c c14Case
+	c.Env = rapid.SampledFrom([]int{0, 0, 0, 1, 2, 3}).Draw(t, "env")
 	for i := 0; i < n; i++ {
 		// near-collisions: mostly the same command and input, one thing changed
 		switch rapid.IntRange(0, 9).Draw(t, "drift") {
@@ -322,6 +324,13 @@ func TestC14(t *testing.T) {
 				{Steps: []c14Step{sa("two", false), ssin("two", 2), ssin("big", 2), sa("big", false)}},
 			} {
 				if !e.try(c) {
+					return
+				}
+			}
+			// the same repeat under other environments (cache directory from HOME alone, none usable, relative path
+			// with another locale and time zone)
+			for envMode := 1; envMode <= 3; envMode++ {
+				if !e.try(c14Case{Env: envMode, Steps: []c14Step{sa("small", false), sa("small", false), sa("two", true), sa("small", false)}}) {
 					return
 				}
 			}
